@@ -1820,10 +1820,13 @@ def resolve_imaginary(dt):
     """
     if dt.tzinfo is not None and not datetime_exists(dt):
 
-        curr_offset = (dt + datetime.timedelta(hours=24)).utcoffset()
-        old_offset = (dt - datetime.timedelta(hours=24)).utcoffset()
+        # A round trip through UTC moves an imaginary wall time by exactly
+        # the width of the gap it is in: backwards if the zone reports the
+        # offset from after the transition for it, forwards if it reports
+        # the one from before (PEP 495 zones do that for fold=0).
+        dt_rt = dt.astimezone(UTC).astimezone(dt.tzinfo)
 
-        dt += curr_offset - old_offset
+        dt += abs(dt_rt.replace(tzinfo=None) - dt.replace(tzinfo=None))
 
     return dt
 
